@@ -8,7 +8,7 @@ scripted dealer as its session.  Endpoint behaviours are drawn per invocation; s
 are outstanding at once; the dealer sends INTERRUPT at any point.
 """
 
-from sim.core import HarnessError
+from sim.core import SetupViolation, HarnessError
 from worlds.stack import StackWorld, StubSession, make_ser
 from worlds.wamp import session_classes
 
@@ -66,8 +66,10 @@ class World(StackWorld):
         self.limit = None
         if kind == "ws":
             self.limit = cfg["limit"] = ch.pick((0, 2000, 6000), "ws-limit")
-            copts = {"maxMessagePayloadSize": self.limit}
-            sopts = {"maxMessagePayloadSize": self.limit}
+            # (with a fragment size of 1 every reply is an exact multiple of it, with 7 or 64 some are)
+            cfg["frag"] = ch.pick((0, 1, 7, 64), "autoFragmentSize", (3, 1, 1, 1))
+            copts = {"maxMessagePayloadSize": self.limit, "autoFragmentSize": cfg["frag"]}
+            sopts = {"maxMessagePayloadSize": self.limit, "autoFragmentSize": ch.pick((0, 1, 64), "autoFragmentSize-dealer", (3, 1, 1))}
             if not self.limit:
                 self.limit = None
         elif self.fwname == "tx":
@@ -86,7 +88,13 @@ class World(StackWorld):
         self.start(c)
         self.pump_all()
         if self.callee._session_id is None:
-            raise HarnessError("callee did not join (%s/%s): dealer saw %r" % (kind, cfg["ser"], [type(m).__name__ for m in self.dealer.msgs]))
+            # the set-up phase injects no fault: a callee that cannot even join over this transport will not answer
+            # any invocation on it
+            self.check_escapes()
+            self.run.violate("C10.every-transport", "session-could-not-join:%s/%s" % (kind, self.fwname),
+                             "serializer %s, options %r: dealer saw %r" % (cfg["ser"], {k: v for k, v in cfg.items() if k not in ("kind", "ser")},
+                                                                        [type(m).__name__ for m in self.dealer.msgs]), fatal=True)
+            return
         # register the endpoints
         self.endpoints = {}
         from autobahn.wamp import types
@@ -98,7 +106,7 @@ class World(StackWorld):
             self.reg_watch[name] = self.fw.watch(f)
         self.pump_all()
         if len(self.regs) != 2:
-            raise HarnessError("registration failed: %r" % self.regs)
+            raise SetupViolation("registration-did-not-complete:%s/%s" % (kind, self.fwname), repr(self.regs))
         self.ops_left = 2 + ch.choose(8, "ninv")
         self.run.log("cfg", sorted((k, repr(v)) for k, v in cfg.items()))
         self.base_msgs = len(self.dealer.msgs)
